@@ -102,9 +102,9 @@ def main(tier, seed=0):
     if tier == "quick":
         runs.append((C05Spec("astd", 3, keys), True))
     else:
-        runs.append((C05Spec("astd", 4, keys), True))
-        runs.append((C05Spec("tok", 3, keys), True))
-        runs.append((C05Spec("astd", 6, keys, oneshot=False, one_key=True), False))
+        runs.append((C05Spec("astd", 5, keys), True))
+        runs.append((C05Spec("tok", 4, keys), True))
+        runs.append((C05Spec("astd", 7, keys, oneshot=False, one_key=True), False))
     total = None
     import time
     t0 = time.time()
